@@ -26,7 +26,7 @@ package absnfs
 //@ func AttrCache.updateAccessLog
 //@ prop C21
 //@ requires acShape(c) && (has(c.cache, path) ==> c.cache[path] != nil)
-//@ modifies lmem, lrank, llen, CachedAttrs.listElement
+//@ modifies lmem[c.accessList], lrank[c.accessList], llen[c.accessList], CachedAttrs.listElement
 // present with an element: it becomes the most recent; present without: a fresh element carrying path is pushed
 //@ ensures [absent-noop] !has(c.cache, path) ==> lmem == old(lmem) && lrank == old(lrank) && llen == old(llen) && forall(x, *CachedAttrs, x.listElement == old(x.listElement), x.listElement)
 //@ ensures [moved] has(c.cache, path) && old(c.cache[path].listElement) != nil ==> lmem == old(lmem) && llen == old(llen) && forall(x, *CachedAttrs, x.listElement == old(x.listElement), x.listElement) && forall(e, mathint, e != c.cache[path].listElement ==> lrank[c.accessList][e] == old(lrank[c.accessList][e])) && (lmem[c.accessList][c.cache[path].listElement] ==> forall(e, mathint, lmem[c.accessList][e] && e != c.cache[path].listElement ==> lrank[c.accessList][c.cache[path].listElement] > lrank[c.accessList][e]))
@@ -36,7 +36,7 @@ package absnfs
 //@ func AttrCache.removeFromAccessLog
 //@ prop C21
 //@ requires acShape(c) && (has(c.cache, path) ==> c.cache[path] != nil)
-//@ modifies lmem, llen, CachedAttrs.listElement
+//@ modifies lmem[c.accessList], llen[c.accessList], CachedAttrs.listElement
 //@ ensures [noop] !has(c.cache, path) || old(c.cache[path].listElement) == nil ==> lmem == old(lmem) && llen == old(llen) && forall(x, *CachedAttrs, x.listElement == old(x.listElement), x.listElement)
 //@ ensures [removed] has(c.cache, path) && old(c.cache[path].listElement) != nil ==> c.cache[path].listElement == nil && !lmem[c.accessList][old(c.cache[path].listElement)] && forall(e, mathint, e != old(c.cache[path].listElement) ==> lmem[c.accessList][e] == old(lmem[c.accessList][e])) && llen[c.accessList] == old(llen[c.accessList]) - ite(old(lmem[c.accessList][c.cache[path].listElement]), 1, 0) && forall(x, *CachedAttrs, x != c.cache[path] ==> x.listElement == old(x.listElement), x.listElement)
 //@ ensures [other-lists] listFrame2(c.accessList)
@@ -44,7 +44,7 @@ package absnfs
 //@ func AttrCache.Invalidate
 //@ prop C21 C02
 //@ requires acInv(c)
-//@ modifies mapof(c.cache), lmem, llen, CachedAttrs.listElement, locks
+//@ modifies mapof(c.cache), lmem[c.accessList], llen[c.accessList], CachedAttrs.listElement, locks
 //@ ensures [gone] !has(c.cache, path) && forall(q, string, q != path ==> has(c.cache, q) == old(has(c.cache, q)) && c.cache[q] == old(c.cache[q]))
 //@ ensures [inv-shape] acShape(c)
 //@ ensures [inv-fwd] acFwd(c)
@@ -59,7 +59,7 @@ package absnfs
 //@ func AttrCache.Put
 //@ prop C21
 //@ requires acInv(c) && attrs != nil
-//@ modifies mapof(c.cache), lmem, lrank, llen, CachedAttrs.listElement, clock, locks
+//@ modifies mapof(c.cache), lmem[c.accessList], lrank[c.accessList], llen[c.accessList], CachedAttrs.listElement, clock, locks
 //@ ensures [stored] has(c.cache, path) && c.cache[path] != nil && !c.cache[path].isNegative && c.cache[path].attrs != nil && c.cache[path].attrs != attrs && fresh(c.cache[path].attrs) && attrsEq(c.cache[path].attrs, attrs)
 //@ ensures [expiry] tsec(c.cache[path].expireAt) == clock + real(c.ttl) / 1000000000.0 && clock >= old(clock)
 //@ ensures [inv-shape] acShape(c) && c.accessList == old(c.accessList) && c.cache == old(c.cache)
@@ -138,7 +138,7 @@ package absnfs
 //@ func AttrCache.PutNegative
 //@ prop C21
 //@ requires acInv(c)
-//@ modifies mapof(c.cache), lmem, lrank, llen, CachedAttrs.listElement, clock, locks
+//@ modifies mapof(c.cache), lmem[c.accessList], lrank[c.accessList], llen[c.accessList], CachedAttrs.listElement, clock, locks
 // no-op unless negative caching is enabled
 //@ ensures [disabled-noop] !c.enableNegative ==> mapsame(c.cache) && lmem == old(lmem) && llen == old(llen)
 //@ ensures [stored] c.enableNegative ==> has(c.cache, path) && c.cache[path] != nil && c.cache[path].isNegative && c.cache[path].attrs == nil && tsec(c.cache[path].expireAt) == clock + real(c.negativeTTL) / 1000000000.0
@@ -161,7 +161,7 @@ package absnfs
 //@ prop C21 C02
 //@ requires acInv(c)
 //@ requires len(server) > 0 ==> server[0] == nil || curTuning(server[0]) != nil
-//@ modifies mapof(c.cache), lmem, lrank, llen, CachedAttrs.listElement, clock, locks, fields(MetricsCollector), extstate
+//@ modifies mapof(c.cache), lmem[c.accessList], lrank[c.accessList], llen[c.accessList], CachedAttrs.listElement, clock, locks, fields(MetricsCollector), extstate
 // hit <=> present and not expired at the clock reading taken by the call (sequential semantics)
 //@ ensures [miss-absent] !old(has(c.cache, path)) ==> !result1 && result0 == nil
 //@ ensures [negative-hit] result1 && result0 == nil ==> old(has(c.cache, path)) && old(c.cache[path].isNegative)
@@ -184,7 +184,7 @@ package absnfs
 //@ func AttrCache.Resize
 //@ prop C21
 //@ requires acInv(c)
-//@ modifies c.maxSize, mapof(c.cache), lmem, llen, locks
+//@ modifies c.maxSize, mapof(c.cache), lmem[c.accessList], llen[c.accessList], locks
 //@ ensures [size] c.maxSize == ite(newSize <= 0, 10000, newSize)
 //@ ensures [capacity] len(c.cache) <= c.maxSize
 //@ ensures [inv-shape] acShape(c)
@@ -220,7 +220,7 @@ package absnfs
 //@ func AttrCache.ConfigureNegativeCaching
 //@ prop C21
 //@ requires acInv(c)
-//@ modifies c.enableNegative, c.negativeTTL, mapof(c.cache), lmem, llen, CachedAttrs.listElement, locks
+//@ modifies c.enableNegative, c.negativeTTL, mapof(c.cache), lmem[c.accessList], llen[c.accessList], CachedAttrs.listElement, locks
 //@ ensures [flag] c.enableNegative == enable && c.negativeTTL == ite(ttl > 0, ttl, old(c.negativeTTL))
 // negative entries exist only while negative caching is enabled
 //@ ensures [no-neg-when-disabled] !enable ==> forall(q, string, has(c.cache, q) ==> !c.cache[q].isNegative, c.cache[q])
@@ -242,7 +242,7 @@ package absnfs
 //@ func AttrCache.InvalidateNegativeInDir
 //@ prop C21 C02
 //@ requires acInv(c)
-//@ modifies mapof(c.cache), lmem, llen, CachedAttrs.listElement, locks
+//@ modifies mapof(c.cache), lmem[c.accessList], llen[c.accessList], CachedAttrs.listElement, locks
 // removes only negative entries that are direct children of dirPath ...
 //@ ensures [only-negative-children] forall(q, string, old(has(c.cache, q)) && !has(c.cache, q) ==> old(c.cache[q].isNegative) && childFn(q, dirPath), c.cache[q])
 //@ ensures [survivors-unchanged] forall(q, string, has(c.cache, q) ==> old(has(c.cache, q)) && c.cache[q] == old(c.cache[q]), c.cache[q])
